@@ -37,6 +37,9 @@ def main():
             continue
         a = a[2:]
     meta = json.load(open(os.path.join(src, "meta.json")))
+    if meta.get("obsolete"):
+        print("OBSOLETE", name, "-", (meta.get("note") or "")[:160])
+        return 0
     history = meta.pop("history", [])
     earlier_checks = {}
     if "verification" in meta and merge:
